@@ -21,7 +21,7 @@ import nfc.llcp.llc as llcmod
 import nfc.snep.server
 import nfc.handover.server
 
-LIMIT = 15.0      # real seconds; only reached when something is stuck
+LIMIT = 8.0      # real seconds; only reached when something is stuck
 
 
 class _FastTime(object):
